@@ -19,11 +19,14 @@ EXTENDS Naturals, Sequences, FiniteSets, TLC, Json, IOUtils, SequencesExt
 
 CONSTANTS MaxArity
 
-Kinds == {"vec", "mat", "str"}
-Base(k) == IF k = "str" THEN "as-given" ELSE "ndarray"
+Kinds == {"vec", "mat", "str", "num"}
+Base(k) == IF k = "str" THEN "as-given" ELSE IF k = "num" THEN "float" ELSE "ndarray"
 FormsOf(k) == CASE k = "vec" -> {"ndarray", "list", "tuple", "strided", "readonly"}
                 [] k = "mat" -> {"ndarray", "list", "F-order", "strided", "readonly"}
                 [] k = "str" -> {"as-given", "lower", "upper"}
+                \* a real-valued scalar parameter given as a Python float: the same number as a NumPy scalar, as a 0-d array, and -- when
+                \* its value is integral -- as a Python int (frequency=100, an angle of 90)
+                [] k = "num" -> {"float", "np.float64", "0-d", "int"}
 BulkForms == {"list", "strided"}      \* forms every array kind has
 
 VARIABLES kinds,   \* sequence of argument kinds
@@ -39,9 +42,10 @@ IsBase == \A i \in DOMAIN kinds : forms[i] = Base(kinds[i])
 Reform(i, f) == /\ IsBase /\ f \in FormsOf(kinds[i]) /\ f # Base(kinds[i])
                 /\ forms' = [forms EXCEPT ![i] = f]
                 /\ UNCHANGED <<kinds, answer>>
-Bulk(f) == /\ IsBase /\ \E i \in DOMAIN kinds : kinds[i] # "str"
-           /\ Cardinality({i \in DOMAIN kinds : kinds[i] # "str"}) > 1
-           /\ forms' = [i \in DOMAIN kinds |-> IF kinds[i] = "str" THEN forms[i] ELSE f]
+IsArr(k) == k \in {"vec", "mat"}
+Bulk(f) == /\ IsBase
+           /\ Cardinality({i \in DOMAIN kinds : IsArr(kinds[i])}) > 1
+           /\ forms' = [i \in DOMAIN kinds |-> IF IsArr(kinds[i]) THEN f ELSE forms[i]]
            /\ UNCHANGED <<kinds, answer>>
 Next == (\E i \in DOMAIN kinds : \E f \in FormsOf(kinds[i]) : Reform(i, f)) \/ (\E f \in BulkForms : Bulk(f))
 Spec == Init /\ [][Next]_vars
@@ -51,14 +55,14 @@ TypeOK == /\ kinds \in KindVectors /\ DOMAIN forms = DOMAIN kinds
 FormBlind == [][answer' = answer]_vars
 (* within the bound: one argument off the baseline, or all arrays in one common bulk form *)
 Bounded == \/ Cardinality({i \in DOMAIN kinds : forms[i] # Base(kinds[i])}) <= 1
-           \/ \E f \in BulkForms : \A i \in DOMAIN kinds : kinds[i] # "str" => forms[i] = f
+           \/ \E f \in BulkForms : \A i \in DOMAIN kinds : IF IsArr(kinds[i]) THEN forms[i] = f ELSE forms[i] = Base(kinds[i])
 
 (* the form vectors the harness replays, per kind vector (the reachable non-baseline states) *)
 VectorsOf(ks) == { [i \in DOMAIN ks |-> IF i = j THEN f ELSE Base(ks[i])] : j \in DOMAIN ks, f \in UNION {FormsOf(k) : k \in Kinds} }
 Reachable(ks) == { fv \in VectorsOf(ks) : /\ \A i \in DOMAIN ks : fv[i] \in FormsOf(ks[i])
                                           /\ \E i \in DOMAIN ks : fv[i] # Base(ks[i]) }
-                 \cup (IF Cardinality({i \in DOMAIN ks : ks[i] # "str"}) > 1
-                       THEN { [i \in DOMAIN ks |-> IF ks[i] = "str" THEN Base(ks[i]) ELSE f] : f \in BulkForms } ELSE {})
+                 \cup (IF Cardinality({i \in DOMAIN ks : IsArr(ks[i])}) > 1
+                       THEN { [i \in DOMAIN ks |-> IF IsArr(ks[i]) THEN f ELSE Base(ks[i])] : f \in BulkForms } ELSE {})
 Table == { [kinds |-> ks, forms |-> SetToSeq(Reachable(ks))] : ks \in KindVectors }
 (* every emitted vector is a state of the machine and every non-baseline state is emitted *)
 EmittedIsReachable == IsBase \/ forms \in Reachable(kinds)
